@@ -67,7 +67,8 @@ func runFG(c *Ctx, s *Sink) {
 	nok, nbad := 0, 0
 	why := ""
 	// the package-level option variables the getters return: find the getters by what they are (called in this function)
-	var maxLen, fwd, rev ast.Expr
+	var maxLen, fwd, rev, extExpr ast.Expr
+	extSeen := false
 	ast.Inspect(fd.Body, func(n ast.Node) bool {
 		call, ok := n.(*ast.CallExpr)
 		if !ok {
@@ -84,6 +85,8 @@ func runFG(c *Ctx, s *Sink) {
 			fwd = call.Args[0]
 		case strings.HasSuffix(f.Name(), "OptionReversePrimer") && len(call.Args) >= 1:
 			rev = call.Args[0]
+		case strings.HasSuffix(f.Name(), "OptionWithExtension") && len(call.Args) >= 1:
+			extExpr = call.Args[0]
 		}
 		return true
 	})
@@ -114,6 +117,23 @@ func runFG(c *Ctx, s *Sink) {
 			pth.env.atoms["|"+types.ExprString(fwd)+"|"], pth.env.lens["|"+types.ExprString(fwd)+"|"] = true, true
 			pth.env.atoms["|"+types.ExprString(rev)+"|"], pth.env.lens["|"+types.ExprString(rev)+"|"] = true, true
 			need := ml.add(lf, 1).add(lr, 1)
+			// the flanks are two: whatever the overlap adds for the extension (--delta), it adds it twice
+			if extExpr != nil {
+				if ef, ok := pth.env.form(extExpr, 0); ok && len(ef.co) == 1 && ef.c == 0 {
+					for a, k := range ef.co {
+						if k == 1 {
+							if c := ov.co[a]; c > 0 && c < 2 {
+								nbad++
+								why = "the overlap counts the flanking region (" + types.ExprString(extExpr) + ") once: an amplicon has two flanks — with --delta d an amplicon of maximal length starting in the d-1 last positions before the next fragment lies entirely in no fragment (lost with --only-complete-flanking, clipped without)"
+								return
+							}
+							if c := ov.co[a]; c >= 2 {
+								extSeen = true
+							}
+						}
+					}
+				}
+			}
 			if pth.known().entails(linLE(need, ov)) {
 				nok++
 			} else {
@@ -127,6 +147,8 @@ func runFG(c *Ctx, s *Sink) {
 			s.Fail(nil, key, frag.Pos(), "two consecutive fragments do not share the longest amplicon with its two primers ("+why+"): an amplicon whose insert has the maximal length and that lies across the end of a fragment is in neither fragment entirely and is not reported (100500 bp template, -L 100: the 100 nt amplicon at 19756 is lost); flanks are clipped at the fragment edge")
 		case nok == 0:
 			s.Undecided(nil, key, frag.Pos(), "the call of IFragments is not reached by the path enumeration")
+		case extExpr != nil && !extSeen:
+			s.Fail(nil, key, frag.Pos(), "the flanking regions given to the PCR ("+types.ExprString(extExpr)+") are on no path part of what two consecutive fragments share: with --delta the amplicons near the end of a fragment lose their flank or, with --only-complete-flanking, are lost")
 		default:
 			s.Pass(nil, key, frag.Pos(), "overlap >= max length + both primers on every path")
 		}
